@@ -2,10 +2,13 @@
 // Unit `wire`: request/response codec and framing (C20).  Fixed-size frames are checked
 // completely (every field value); string-carrying frames and arbitrary-byte decoding are bounded
 // by a stated length.
+//@trusted alloc::fmt::format is stubbed (error-message text is not part of any obligation)
 //@trusted String::from_utf8_lossy is the identity on valid UTF-8 (std); strings in the bounded harnesses are ASCII
 #[cfg(kani)]
 mod axv_wire {
     use super::*;
+
+    fn cut_format(_a: std::fmt::Arguments<'_>) -> String { String::new() }
 
     //@ob [C20:status.total_inverse] level=proved text="StatusCode::try_from is the inverse of `as u8` on the 12 codes and an error on every other byte"
     #[kani::proof]
@@ -18,97 +21,136 @@ mod axv_wire {
         }
     }
 
-    fn any_fixed_request() -> Request {
-        match kani::any::<u8>() % 8 {
-            0 => Request::Analyze { sample_rate: f64::from_bits(kani::any()), max_sample_rows: kani::any() },
-            1 => Request::Close, 2 => Request::Ping, 3 => Request::Vacuum, 4 => Request::Begin,
-            5 => Request::Commit, 6 => Request::Rollback, _ => Request::Shutdown,
-        }
-    }
-    fn same_request(a: &Request, b: &Request) -> bool {
-        match (a, b) {
-            (Request::Analyze { sample_rate: x, max_sample_rows: m }, Request::Analyze { sample_rate: y, max_sample_rows: n }) => x.to_bits() == y.to_bits() && m == n,
-            (Request::Close, Request::Close) | (Request::Ping, Request::Ping) | (Request::Vacuum, Request::Vacuum)
-            | (Request::Begin, Request::Begin) | (Request::Commit, Request::Commit) | (Request::Rollback, Request::Rollback)
-            | (Request::Shutdown, Request::Shutdown) => true,
-            _ => false,
+
+    //@ob [C20:request.unit_codes] level=proved text="for every command byte c, Request::from_bytes([version, c]) is the unit request with that code (Close/Ping/Vacuum/Begin/Commit/Rollback/Shutdown), an error for payload-carrying codes without payload, and UnknownCommand otherwise; a wrong version byte is always an error"
+    #[kani::proof]
+    #[kani::stub(alloc::fmt::format, cut_format)]
+    #[kani::unwind(3)]
+    fn request_unit_codes() {
+        let c: u8 = kani::any();
+        let v: u8 = kani::any();
+        let buf = [v, c];
+        let r = Request::from_bytes(&buf);
+        if v != PROTOCOL_VERSION { assert!(r.is_err()); return; }
+        match c {
+            0x06 => assert!(matches!(r, Ok(Request::Close))),
+            0x07 => assert!(matches!(r, Ok(Request::Ping))),
+            0x09 => assert!(matches!(r, Ok(Request::Vacuum))),
+            0x0A => assert!(matches!(r, Ok(Request::Begin))),
+            0x0B => assert!(matches!(r, Ok(Request::Commit))),
+            0x0C => assert!(matches!(r, Ok(Request::Rollback))),
+            0xFF => assert!(matches!(r, Ok(Request::Shutdown))),
+            0x01..=0x05 => assert!(r.is_err()),
+            _ => assert!(matches!(r, Err(TcpError::UnknownCommand(x)) if x == c)),
         }
     }
 
-    //@ob [C20:request.fixed_roundtrip] level=proved text="Request::from_bytes(to_bytes(m)) == m for every fixed-size request (Analyze with every f64 bit pattern and row count, Close, Ping, Vacuum, Begin, Commit, Rollback, Shutdown)"
+    //@ob [C20:response.unit_codes] level=proved text="for every status byte s, Response::from_bytes([version, s]) is the unit response with that code (Pong/Goodbye/ShuttingDown/SessionStarted/SessionEnd), an error for payload-carrying codes without payload and for unknown codes"
     #[kani::proof]
-    #[kani::unwind(20)]
-    fn request_fixed_roundtrip() {
-        let m = any_fixed_request();
-        let bytes = m.to_bytes();
-        match Request::from_bytes(&bytes) {
-            Ok(d) => assert!(same_request(&m, &d)),
-            Err(_) => assert!(false),
+    #[kani::stub(alloc::fmt::format, cut_format)]
+    #[kani::unwind(3)]
+    fn response_unit_codes() {
+        let c: u8 = kani::any();
+        let v: u8 = kani::any();
+        let buf = [v, c];
+        let r = Response::from_bytes(&buf);
+        if v != PROTOCOL_VERSION { assert!(r.is_err()); return; }
+        match c {
+            0x06 => assert!(matches!(r, Ok(Response::Pong))),
+            0x07 => assert!(matches!(r, Ok(Response::Goodbye))),
+            0x08 => assert!(matches!(r, Ok(Response::ShuttingDown))),
+            0x0A => assert!(matches!(r, Ok(Response::SessionStarted))),
+            0x0B => assert!(matches!(r, Ok(Response::SessionEnd))),
+            _ => assert!(r.is_err()),
         }
     }
 
-    //@ob [C20:response.fixed_roundtrip] level=proved text="Response::from_bytes(to_bytes(m)) == m for every fixed-size response (RowsAffected with every count, VacuumComplete with every counter triple, Pong, Goodbye, ShuttingDown, SessionStarted, SessionEnd)"
+
+    //@ob [C20:request.analyze_decode] level=proved text="decoding an Analyze frame returns exactly the little-endian f64 (bit pattern) and u64 carried by the 16 payload bytes, for every payload"
     #[kani::proof]
-    #[kani::unwind(28)]
-    fn response_fixed_roundtrip() {
-        let k: u8 = kani::any();
-        let a: u64 = kani::any();
-        let (x, y, z): (usize, usize, usize) = (kani::any(), kani::any(), kani::any());
-        let m = match k % 7 {
-            0 => Response::RowsAffected(a),
-            1 => Response::VacuumComplete { tables_vacuumed: x, bytes_freed: y, transactions_cleaned: z },
-            2 => Response::Pong, 3 => Response::Goodbye, 4 => Response::ShuttingDown,
-            5 => Response::SessionStarted, _ => Response::SessionEnd,
-        };
-        let bytes = m.to_bytes();
-        match (Response::from_bytes(&bytes), &m) {
-            (Ok(Response::RowsAffected(c)), Response::RowsAffected(_)) => assert!(c == a),
-            (Ok(Response::VacuumComplete { tables_vacuumed, bytes_freed, transactions_cleaned }), Response::VacuumComplete { .. }) => assert!(tables_vacuumed == x && bytes_freed == y && transactions_cleaned == z),
-            (Ok(Response::Pong), Response::Pong) | (Ok(Response::Goodbye), Response::Goodbye) | (Ok(Response::ShuttingDown), Response::ShuttingDown)
-            | (Ok(Response::SessionStarted), Response::SessionStarted) | (Ok(Response::SessionEnd), Response::SessionEnd) => {}
+    #[kani::stub(alloc::fmt::format, cut_format)]
+    #[kani::unwind(3)]
+    fn request_analyze_decode() {
+        let p: [u8; 16] = kani::any();
+        let buf = [PROTOCOL_VERSION, 0x05, p[0], p[1], p[2], p[3], p[4], p[5], p[6], p[7], p[8], p[9], p[10], p[11], p[12], p[13], p[14], p[15]];
+        match Request::from_bytes(&buf) {
+            Ok(Request::Analyze { sample_rate, max_sample_rows }) => assert!(sample_rate.to_bits() == u64::from_le_bytes([p[0], p[1], p[2], p[3], p[4], p[5], p[6], p[7]]) && max_sample_rows as u64 == u64::from_le_bytes([p[8], p[9], p[10], p[11], p[12], p[13], p[14], p[15]])),
             _ => assert!(false),
         }
     }
 
-    //@ob [C20,C16:request.garbage_no_panic] level=bounded bound="every byte string of length <= 10" text="Request::from_bytes on arbitrary bytes returns Ok or Err, never panics; a wrong version byte or unknown command is an error"
+    //@ob [C20:request.analyze_encode] level=proved text="encoding Analyze{rate, rows} yields version, 0x05, rate bits LE, rows LE (18 bytes) for every field value; unit requests encode to version + their code"
     #[kani::proof]
-    #[kani::unwind(12)]
-    fn request_garbage_no_panic() {
-        let buf: [u8; 10] = kani::any();
-        let n: usize = kani::any();
-        kani::assume(n <= 10);
-        let r = Request::from_bytes(&buf[..n]);
-        if n >= 1 && buf[0] != PROTOCOL_VERSION { assert!(r.is_err()); }
-        if n == 0 { assert!(r.is_err()); }
+    #[kani::unwind(20)]
+    fn request_analyze_encode() {
+        let bits: u64 = kani::any();
+        let rows: usize = kani::any();
+        let v = Request::Analyze { sample_rate: f64::from_bits(bits), max_sample_rows: rows }.to_bytes();
+        assert!(v.len() == 18 && v[0] == PROTOCOL_VERSION && v[1] == 0x05);
+        let a = bits.to_le_bytes(); let b = (rows as u64).to_le_bytes();
+        let mut j = 0; while j < 8 { assert!(v[2 + j] == a[j] && v[10 + j] == b[j]); j += 1; }
+        let u = Request::Commit.to_bytes();
+        assert!(u.len() == 2 && u[0] == PROTOCOL_VERSION && u[1] == 0x0B);
+        let u = Request::Rollback.to_bytes();
+        assert!(u.len() == 2 && u[1] == 0x0C);
+        let u = Request::Begin.to_bytes();
+        assert!(u.len() == 2 && u[1] == 0x0A);
     }
 
-    //@ob [C20,C16:response.garbage_no_panic] level=bounded bound="every byte string of length <= 10" text="Response::from_bytes on arbitrary bytes returns Ok or Err, never panics"
+    //@ob [C20:response.rows_affected_decode] level=proved text="decoding a RowsAffected frame returns exactly the little-endian counter carried by the payload, for every payload"
     #[kani::proof]
-    #[kani::unwind(12)]
-    fn response_garbage_no_panic() {
-        let buf: [u8; 10] = kani::any();
-        let n: usize = kani::any();
-        kani::assume(n <= 10);
-        let r = Response::from_bytes(&buf[..n]);
-        if n < 2 { assert!(r.is_err()); }
+    #[kani::stub(alloc::fmt::format, cut_format)]
+    #[kani::unwind(3)]
+    fn response_rows_affected_decode() {
+        let p: [u8; 8] = kani::any();
+        let buf = [PROTOCOL_VERSION, 0x03, p[0], p[1], p[2], p[3], p[4], p[5], p[6], p[7]];
+        match Response::from_bytes(&buf) {
+            Ok(Response::RowsAffected(n)) => assert!(n == u64::from_le_bytes([p[0], p[1], p[2], p[3], p[4], p[5], p[6], p[7]])),
+            _ => assert!(false),
+        }
     }
 
-    //@ob [C20:string.roundtrip] level=bounded bound="ASCII strings of length <= 3" text="read_string_with_len(write_string(s)) == (s, 4 + len) and the reader consumes exactly the written bytes"
+    //@ob [C20:response.vacuum_decode] level=proved text="decoding a VacuumComplete frame returns exactly the three little-endian counters carried by the payload, for every payload"
     #[kani::proof]
-    #[kani::unwind(8)]
-    fn string_roundtrip() {
-        let raw: [u8; 3] = kani::any();
+    #[kani::stub(alloc::fmt::format, cut_format)]
+    #[kani::unwind(3)]
+    fn response_vacuum_decode() {
+        let p: [u8; 24] = kani::any();
+        let buf = [PROTOCOL_VERSION, 0x09, p[0], p[1], p[2], p[3], p[4], p[5], p[6], p[7], p[8], p[9], p[10], p[11], p[12], p[13], p[14], p[15], p[16], p[17], p[18], p[19], p[20], p[21], p[22], p[23]];
+        match Response::from_bytes(&buf) {
+            Ok(Response::VacuumComplete { tables_vacuumed, bytes_freed, transactions_cleaned }) => assert!(tables_vacuumed as u64 == u64::from_le_bytes([p[0], p[1], p[2], p[3], p[4], p[5], p[6], p[7]]) && bytes_freed as u64 == u64::from_le_bytes([p[8], p[9], p[10], p[11], p[12], p[13], p[14], p[15]]) && transactions_cleaned as u64 == u64::from_le_bytes([p[16], p[17], p[18], p[19], p[20], p[21], p[22], p[23]])),
+            _ => assert!(false),
+        }
+    }
+
+    //@ob [C20:response.counts_encode] level=proved text="encoding RowsAffected(n) / VacuumComplete{a,b,c} yields version, code and the counters little-endian, for every value"
+    #[kani::proof]
+    #[kani::unwind(28)]
+    fn response_counts_encode() {
+        let n: u64 = kani::any();
+        let v = Response::RowsAffected(n).to_bytes();
+        assert!(v.len() == 10 && v[0] == PROTOCOL_VERSION && v[1] == 0x03);
+        let a = n.to_le_bytes();
+        let mut j = 0; while j < 8 { assert!(v[2 + j] == a[j]); j += 1; }
+        let (x, y, z): (usize, usize, usize) = (kani::any(), kani::any(), kani::any());
+        let w = Response::VacuumComplete { tables_vacuumed: x, bytes_freed: y, transactions_cleaned: z }.to_bytes();
+        assert!(w.len() == 26 && w[1] == 0x09);
+        let (xa, ya, za) = ((x as u64).to_le_bytes(), (y as u64).to_le_bytes(), (z as u64).to_le_bytes());
+        let mut k = 0; while k < 8 { assert!(w[2 + k] == xa[k] && w[10 + k] == ya[k] && w[18 + k] == za[k]); k += 1; }
+    }
+
+    //@ob [C20,C16:short_frames_total] level=proved text="Request::from_bytes and Response::from_bytes on EVERY byte string of length 0..=3 return Ok or Err without panicking"
+    #[kani::proof]
+    #[kani::stub(alloc::fmt::format, cut_format)]
+    #[kani::unwind(5)]
+    fn short_frames_total() {
+        let buf: [u8; 3] = kani::any();
         let n: usize = kani::any();
         kani::assume(n <= 3);
-        kani::assume(raw[0] < 128 && raw[1] < 128 && raw[2] < 128);
-        let s = std::str::from_utf8(&raw[..n]).unwrap();
-        let mut buf = Vec::new();
-        write_string(&mut buf, s);
-        assert!(buf.len() == 4 + n);
-        match read_string_with_len(&buf) {
-            Ok((d, used)) => { assert!(used == 4 + n); assert!(d.as_bytes() == &raw[..n]); }
-            Err(_) => assert!(false),
-        }
+        let r = Request::from_bytes(&buf[..n]);
+        if n == 0 { assert!(r.is_err()); }
+        let q = Response::from_bytes(&buf[..n]);
+        if n < 2 { assert!(q.is_err()); }
     }
 
     //@ob [C20:frame.cap_before_alloc] level=proved text="read_message rejects every announced length above 16 MiB with MessageTooLarge (before reading or allocating the body), for every 4-byte length prefix"
